@@ -128,6 +128,13 @@ KINDS = {
     "enum_adj_closed": (ref("AdjC"), [{"t": "A", "c": 1}, {"t": "B"}], [{"t": "A", "c": 1, "unit": "mm"}, {"t": "B", "c": 1}, {"t": "B", "radius": 3}], False),
     "enum_int_closed": (ref("IntC"), [{"t": "A", "x": 1}, {"t": "B"}], [{"t": "A", "x": 1, "unit": "mm"}, {"t": "B", "x": 1}], False),
     "enum_ext_closed": (ref("ExtC"), ["U", {"S": {"x": 1}}], [{"S": {"x": 1, "y": 2}}, {"S": {"x": 1}, "T": 0}, {"U": None}], False),
+    # 64-bit unsigned values beyond i64::MAX in NESTED positions of a default (rendered as literals, not through the shared integer helper)
+    "opt_u64": ({"type": ["integer", "null"], "format": "uint64", "minimum": 0}, [18446744073709551615, 9223372036854775808, None], [-1, "x"], False),
+    "vec_u64": ({"type": "array", "items": {"type": "integer", "format": "uint64", "minimum": 0}}, [[18446744073709551615, 0], [9223372036854775807]], [[-1]], False),
+    "map_u64": ({"type": "object", "additionalProperties": {"type": "integer", "format": "uint64", "minimum": 0}}, [{"k": 18446744073709551615}], [{"k": -1}], False),
+    "tuple_u64": ({"type": "array", "items": [{"type": "integer", "format": "uint64", "minimum": 0}, STR], "minItems": 2, "maxItems": 2}, [[18446744073709551615, "s"]], [[-1, "s"]], False),
+    "struct_u64": ({"type": "object", "properties": {"bytes": {"type": "integer", "format": "uint64", "minimum": 0}, "low": {"type": "integer", "format": "int64"}}, "required": ["bytes"]},
+                   [{"bytes": 18446744073709551615, "low": -9223372036854775808}, {"bytes": 0}], [{"bytes": -1}], False),
     "enum_unt": (ref("Unt"), ["s", 5, [1]], [True, {}], False),
     "alias": (ref("Al"), [{"x": 2}], [{"x": "s"}], False),
     "boxed": (ref("Rec"), [{}, {"r": {}}], [{"r": 5}], False),
@@ -137,7 +144,7 @@ KINDS = {
     "date": ({"type": "string", "format": "date"}, ["2020-02-29"], [], True),
 }
 QUICK_KINDS = ["bool", "u8", "i64", "nz32", "f64", "string", "str_max2", "str_enum", "opt_scalar", "opt_struct", "vec", "set", "map_int", "map_any", "map_key", "map_enum_key", "map_patprops", "map_key_len",
-               "tuple1", "tuple2", "struct", "struct_closed", "struct_renamed", "alias", "struct_req_nullable", "struct_nested_defaults", "struct_inline_defaults", "enum_inline_defaults", "struct_flat", "struct_flat_renamed", "struct_flat_renamed_inline", "enum_ext", "enum_int", "enum_adj", "enum_adj_closed", "enum_int_closed", "enum_ext_closed", "enum_adj3", "allof_struct", "tuple_unit", "struct_unit_member", "enum_unt", "enum_ext_tuple", "enum_adj_tuple", "enum_unt_struct", "deny_list", "str_pattern", "str_mb", "str_min3_mb", "str_minmax",
+               "tuple1", "tuple2", "struct", "struct_closed", "struct_renamed", "alias", "struct_req_nullable", "struct_nested_defaults", "struct_inline_defaults", "enum_inline_defaults", "struct_flat", "struct_flat_renamed", "struct_flat_renamed_inline", "enum_ext", "enum_int", "opt_u64", "vec_u64", "map_u64", "tuple_u64", "struct_u64", "enum_adj", "enum_adj_closed", "enum_int_closed", "enum_ext_closed", "enum_adj3", "allof_struct", "tuple_unit", "struct_unit_member", "enum_unt", "enum_ext_tuple", "enum_adj_tuple", "enum_unt_struct", "deny_list", "str_pattern", "str_mb", "str_min3_mb", "str_minmax",
                "typed_enum", "boxed", "unit", "uuid"]
 
 
